@@ -67,6 +67,21 @@ CHECKS = {
         design="DESIGN.md section 3, C08; Changes after round 0",
         engine="rex+symgo",
         technique="SMT regular-language intersection (z3 str.in_re) for all pattern pairs; symbolic execution of export/import from go/ssa to bit-vector obligations"),
+    "C09": dict(
+        category="model_checking",
+        text=("NARROWED to state isolation, the cause the property names. The real bondmachine.VM.Step / procbuilder.VM.Step / Opcode.Simulate "
+              "are executed symbolically with programs (every ROM word over add,addp,cpy,dec,divp,inc,j,multp,nop,rset), registers and EVERY "
+              "value of the hidden mutable state reachable from the opcode registry as solver variables, and z3 decides three 2-safety facts "
+              "for T ticks: (0) the VM state after Step is the same for two resume orders of the per-processor workers; (1) a processor's "
+              "state does not depend on another, unbonded processor of its VM; (2) a simulation's state does not depend on another "
+              "simulation stepped in the same process. Goroutine interleavings finer than a processor step, GOMAXPROCS, the race "
+              "detector's verdict, and the simbox/bmnumbers registries under concurrent callers are NOT decided by this check."),
+        note=("Trusted: z3, go/ssa, /verif/symgo with its goroutine model; multiplications/divisions are first abstracted by uninterpreted "
+              "functions (sound for 'holds'), a violated/inconclusive configuration is re-decided without abstraction; order-dependence "
+              "counterexamples are confirmed by concrete evaluation of the model (a worker order cannot be forced on the Go scheduler), "
+              "the others are replayed natively. One genuine defect repaired (fix: 70761df)."),
+        design="DESIGN.md section 3, C09 (narrowed); section 5",
+        technique="2-safety by self-composition inside one symbolic execution (go/ssa -> SMT), decided by z3; UF abstraction of mul/div with re-check"),
     "C10": dict(
         category="proof",
         text=("Bounded inductive step decided by SMT: for every endpoint shape built by real Add_* calls within the history-length bound "
@@ -168,7 +183,7 @@ def main():
         ],
         "checks": checks,
         "not_applicable": na,
-        "notes": "fix: commits in /repo: bc191a3, 7728b54 (C03), f0fe4e6 (C08), 31ff0b2 (C01). Known findings and fixed entries: /verif/known_findings.json.",
+        "notes": "fix: commits in /repo: bc191a3, 7728b54 (C03), f0fe4e6 (C08), 31ff0b2 (C01), 70761df (C09). Known findings and fixed entries: /verif/known_findings.json.",
     }
     with open(os.path.join(ROOT, "MANIFEST.json"), "w") as f:
         json.dump(m, f, indent=1)
